@@ -378,18 +378,49 @@ func genInterruptedDeleteCase(r *rand.Rand, cfg Cfg) Case {
 		}
 		keys = append(keys, vk(600+i*7, l))
 	}
+	victim, tv := top, 1
+	var pre []string
+	switch r.Intn(3) {
+	case 0:
+		// the top node (and so the whole path of the delete) is already a private, dirty node
+		pre = []string{opIns(0, top, 2), opIns(0, keys[1], 3), opIns(0, keys[1], 1)}
+		tv = 2
+	case 1:
+		// the other way to a height reduction: the size falls to bf^height.  bf^h + 1 entries, one
+		// of the top layer in the middle; the victim is a leaf entry whose path is already private
+		// and dirty, the top node's other child is still only in the store (the reduction loads it)
+		cfg.BF = pick(r, []uint{2, 3, 4})
+		n := 1
+		for i := 0; i < h; i++ {
+			n *= int(cfg.BF)
+		}
+		keys = []uint64{vk(500, h)}
+		for i := 0; i < n; i++ {
+			id := 100 + 10*i
+			if i >= n/2 {
+				id = 600 + 10*i
+			}
+			keys = append(keys, vk(id, 0))
+		}
+		top = keys[0]
+		victim = keys[1]
+		pre = []string{opIns(0, victim, 2)}
+		tv = 2
+	}
 	ops := []string{"new 0"}
 	for _, k := range keys {
 		ops = append(ops, opIns(0, k, 1))
 	}
-	ops = append(ops, "root 0 0", "load 0 0", "load 0 2", fmt.Sprintf("faultall load del 0 %d 1", top),
-		"stat 0", "iter 0", "diff 2 0", "diff 0 2", fmt.Sprintf("get 0 %d", keys[1]), fmt.Sprintf("cwalk 0 %d ffb", keys[1]),
+	ops = append(ops, "root 0 0", "load 0 0", "load 0 2")
+	ops = append(ops, pre...)
+	ops = append(ops, fmt.Sprintf("faultall load del 0 %d %d", victim, tv),
+		"stat 0", "iter 0", "diff 2 0", "diff 0 2", fmt.Sprintf("get 0 %d", keys[2]), fmt.Sprintf("cwalk 0 %d ffb", keys[2]),
 		fmt.Sprintf("seek 0 %d", keys[2]), "clone 0 3", "iter 3", "diff 2 3", "roots 0 1", "pshape 1", "load 1 4", "iter 4", "stat 4", "diff 2 4",
 		// the version just persisted has the shape an earlier release leaves (taller than warranted):
 		// loaded and persisted again unmodified it writes nothing and returns the same root
 		"roots 4 5", "stat 4", "load 5 6", "iter 6")
 	if r.Intn(2) == 0 {
-		ops = append(ops, opIns(0, vk(601, 0), 2), "iter 0", opDel(0, keys[1], 1), "iter 0", "stat 0", "root 0 2", "load 2 4", "iter 4")
+		ops = append(ops, opIns(0, vk(601, 0), 2), "iter 0", opDel(0, keys[2], 1), "iter 0", "stat 0", "root 0 2", "load 2 4", "iter 4")
 	}
 	return Case{cfg, ops}
 }
